@@ -763,7 +763,7 @@ func (m *Mint) GetMeltQuoteState(ctx context.Context, quoteId string) (storage.M
 			// in between leaves them pending for a quote that is never checked again
 			_, Ys, err := m.pendingProofsForQuote(meltQuote.Id)
 			if err == nil {
-				err = m.db.RemovePendingProofs(Ys)
+				err = m.db.RemovePendingProofsByQuote(Ys, meltQuote.Id)
 			}
 			if err != nil {
 				errmsg := fmt.Sprintf("error removing pending proofs for quote: %v", err)
@@ -861,7 +861,7 @@ func (m *Mint) MeltTokens(ctx context.Context, meltTokensRequest nut05.PostMeltB
 	if err != nil {
 		// no payment was attempted so release the proofs. If they were left as pending
 		// with the quote still unpaid, nothing would ever check on them again
-		if err := m.db.RemovePendingProofs(Ys); err != nil {
+		if err := m.db.RemovePendingProofsByQuote(Ys, meltQuote.Id); err != nil {
 			m.logErrorf("could not remove pending proofs for quote '%v': %v", meltQuote.Id, err)
 		}
 		errmsg := fmt.Sprintf("error updating melt quote state: %v", err)
@@ -879,7 +879,7 @@ func (m *Mint) MeltTokens(ctx context.Context, meltTokensRequest nut05.PostMeltB
 			// Unlock the proofs and set the quote back to unpaid, otherwise they
 			// would stay pending for a payment that will never exist.
 			if cashuErr, ok := err.(*cashu.Error); ok && cashuErr.Code == cashu.LightningBackendErrCode {
-				if err := m.db.RemovePendingProofs(Ys); err != nil {
+				if err := m.db.RemovePendingProofsByQuote(Ys, meltQuote.Id); err != nil {
 					m.logErrorf("could not remove pending proofs for quote '%v': %v", meltQuote.Id, err)
 				} else if err := m.db.UpdateMeltQuote(meltQuote.Id, "", nut05.Unpaid); err != nil {
 					m.logErrorf("could not set quote '%v' to unpaid: %v", meltQuote.Id, err)
@@ -946,7 +946,7 @@ func (m *Mint) MeltTokens(ctx context.Context, meltTokensRequest nut05.PostMeltB
 
 				// remove proofs from pending before marking the quote as unpaid. Otherwise a failure
 				// in between leaves them pending for a quote that is never checked again
-				err = m.db.RemovePendingProofs(Ys)
+				err = m.db.RemovePendingProofsByQuote(Ys, meltQuote.Id)
 				if err != nil {
 					errmsg := fmt.Sprintf("error removing proofs from pending: %v", err)
 					return storage.MeltQuote{}, cashu.BuildCashuError(errmsg, cashu.DBErrCode)
@@ -974,7 +974,7 @@ func (m *Mint) MeltTokens(ctx context.Context, meltTokensRequest nut05.PostMeltB
 
 				// remove proofs from pending before marking the quote as unpaid. Otherwise a failure
 				// in between leaves them pending for a quote that is never checked again
-				err = m.db.RemovePendingProofs(Ys)
+				err = m.db.RemovePendingProofsByQuote(Ys, meltQuote.Id)
 				if err != nil {
 					errmsg := fmt.Sprintf("error removing proofs from pending: %v", err)
 					return storage.MeltQuote{}, cashu.BuildCashuError(errmsg, cashu.DBErrCode)
